@@ -1099,6 +1099,12 @@ namespace bloch::runtime {
                     rc->destructorDecl = dtor;
                 }
             }
+            // A bucket reallocates while overloads are added to it, so the addresses taken above
+            // may dangle; point the dispatch table at the elements now that the buckets are complete.
+            for (auto& bucket : rc->methods)
+                for (auto& stored : bucket.second)
+                    if (stored.isVirtual || stored.isOverride)
+                        rc->vtable[stored.signature] = &stored;
             if (rc->staticStorage.size() < rc->staticFields.size())
                 rc->staticStorage.resize(rc->staticFields.size());
         }
@@ -1223,6 +1229,10 @@ namespace bloch::runtime {
                 rc->destructorDecl = dtor;
             }
         }
+        for (auto& bucket : rc->methods)
+            for (auto& stored : bucket.second)
+                if (stored.isVirtual || stored.isOverride)
+                    rc->vtable[stored.signature] = &stored;
         if (rc->staticStorage.size() < rc->staticFields.size())
             rc->staticStorage.resize(rc->staticFields.size());
         m_classTable[key] = rc;
